@@ -295,3 +295,19 @@ Fixpoint no_percent (s : string) : Prop :=
 
 (* the three extensions writeControlStart uses *)
 Definition exts : list string := ["ljh"%string; "ljh3"%string; "off"%string].
+
+(* inputs for which the model is a mirror and the 16-bit code fields suffice (what the harness generates) *)
+Definition wf_op (o : op) : Prop :=
+  match o with
+  | LRun avail req nsamp first sepCards sepCols geom =>
+      zlen req <= zlen geom /\ Forall (fun g => 0 <= fst g < 65536 /\ 0 <= snd g < 65536) geom
+  | LAgain => True
+  | APrep pk => Forall (fun p => 1 <= fst p < 65536) pk /\ zlen pk < 65536
+  | RPrep devs => 0 <= fold_left Z.add devs 0 < 65536
+  | TPrep n => n < 65536
+  | SPrep n => n < 65536
+  | EPrep n => 0 <= n
+  | RcCode _ _ _ _ => True
+  | Files base today i offs => no_percent base /\ no_percent today
+  end.
+
